@@ -19,7 +19,18 @@ class LightSeams:
         logging.disable(logging.CRITICAL)
         rng = _random.Random(int(self.run_seed, 16) ^ 0x5EED)
         self.rng = rng
-        for mod, name, new in ((client, "random", rng), (c2, "random", rng), (utils, "random", rng),
+        class _FixedTime:
+            def time(self):
+                return 1_700_000_000.0
+
+            def sleep(self, s):
+                raise RuntimeError("time.sleep called in a kernel-less execution")
+
+            def __getattr__(self, name):
+                import time as _t
+                return getattr(_t, name)
+
+        for mod, name, new in ((client, "time", _FixedTime()), (client, "random", rng), (c2, "random", rng), (utils, "random", rng),
                                (cr, "get_random_bytes", SeededBytes(self.run_seed))):
             self.saved.append((mod, name, getattr(mod, name)))
             setattr(mod, name, new)
